@@ -35,7 +35,8 @@ MANIFEST = {
             "operators, acceptance tests, call order and what the ranking argument rests on (DMZ broadcast guard, routers resolve "
             "without ARP, replies start nothing, ARP pairs genuine, find_best_route pure) regenerated from the source "
             "(Gen/Forward.lean) + rigs R-route and R-net (whole event streams, results and final tables of generated topologies "
-            "diffed against the model, plus the property's own oracle on the implementation).",
+            "diffed against the model, plus the property's own oracle on the implementation) + R-app (real DNS / database exchanges "
+            "across generated routers, implementation-side oracles only).",
     "note": "C08-specific: the termination theorem needs GoodCfg (unique MACs, next hops are addresses only routers carry); "
             "whether it is necessary is open (no counterexample known on the repaired code; the rig's misconfigured families "
             "terminate in model and implementation). Python's own recursion limit is outside the model. Liveness is PARTIAL: "
@@ -237,6 +238,40 @@ def _run_net(ctx: Ctx):
     ctx.oblige("rig:R-net agrees on every trace", "correspondence", agree == len(cases), f"{len(cases) - agree} of {len(cases)} traces disagree")
 
 
+# ---------------------------------------------------------------------------------------------- R-app
+def _run_apps(ctx: Ctx):
+    """Real application exchanges (DNS look-up, database connect + query) across the generated routers: implementation only, the
+    property's own oracles (termination, TTL, addressee, permitted exchanges succeed).  Search / validation, not proof: the
+    model's service exchange is one UDP request / reply; these go through the same hand-over code with other ports and payloads."""
+    rng = ctx.rng.fork("app")
+    want = ctx.scale(40, 300)
+    done = tries = 0
+    while done < want and tries < want * 12:
+        tries += 1
+        case = rnet.gen_case(rng)
+        kinds = {nd["kind"] for nd in case["nodes"]}
+        hosts = [nd for nd in case["nodes"] if nd["kind"] == "host"]
+        notes = case.get("notes", {})
+        if ("firewall" in kinds or "wrouter" in kinds or not case.get("consistent") or len(hosts) < 2
+                or notes.get("dual_homed") is not None or notes.get("via_host") or notes.get("routing") == "broken"):
+            continue
+        case = dict(case, ops=[])
+        records = rnet.run_apps(case)
+        done += 1
+        ctx.cov["traces_validated_against_impl"] += 1
+        ctx.count(f"app-routers:{notes.get('routers')}")
+        routed = False
+        for r in records:
+            ctx.count(f"app-exchange:{r['op']['op'][4:]}:{r['res']}")
+            ctx.count("app-events", len(r["raw"]))
+            routed = routed or any(e[0] == "hop" for e in r["raw"])
+        ctx.case(["app", case], routed)
+        bad = rnet.oracle(case, records)
+        if bad:
+            ctx.violation({"kind": "net-oracle", "defect": bad["kind"], "family": "app"}, bad["what"], {"rig": "app", "case": case})
+    ctx.oblige("rig:R-app ran its application exchanges", "correspondence", done > 0, f"{done} cases")
+
+
 def replay(rec: dict) -> bool:
     with lean_lock():
         from harness.lib.core import lake_build
@@ -246,6 +281,8 @@ def replay(rec: dict) -> bool:
     if r.get("rig") == "route":
         ok, impl, *_ = _route_diff(case)
         return ok and rroute.oracle(case, impl) is None
+    if r.get("rig") == "app":
+        return rnet.oracle(case, rnet.run_apps(case)) is None
     ok, impl, model, i, records = _net_diff(case)
     return ok and rnet.oracle(case, records) is None
 
@@ -262,3 +299,4 @@ def run(ctx: Ctx):
                        "canonical JSON of the case")
     _run_route(ctx)
     _run_net(ctx)
+    _run_apps(ctx)
